@@ -100,6 +100,9 @@ def run_one(tape, cfg):
         # partitions cut at drawn positions (equal cuts give empty partitions, also the first one);
         # stale, longer files already present at the target paths
         cut_parts = n > 0 and tape.chance(1, 3, "cut_parts")
+        if n > 0 and tape.chance(1, 8, "many_parts"):
+            # more than ten part files: their names must still sort in partition order
+            nparts, cut_parts = 11 + tape.draw(3, "np11"), True
         cuts = sorted(tape.draw(n + 1, "cut") for _ in range(nparts - 1)) if cut_parts else []
         stale = tape.chance(1, 3, "stale")
     wl = {"cuts": cuts if cut_parts else None, "stale_files": stale, "rows": n, "frame": df.astype(str).values.tolist(), "columns": list(df.columns), "nparts": nparts,
@@ -128,11 +131,19 @@ def run_one(tape, cfg):
         d = dd.from_pandas(df, npartitions=nparts, sort=False) if n else \
             dd.from_pandas(df, npartitions=1)
         parts_pd = [p for p in dask.compute(*d.to_delayed(), scheduler="sync")]
+    # default part names are zero-padded to the width of the largest number (fsspec), so that they
+    # sort in partition order
+    import math
+
+    width = max(1, int(math.ceil(math.log10(len(parts_pd) - 1 + 1e-8)))) if len(parts_pd) > 1 else 1
+    part_names = [f"/out/part-p{i:03d}.csv" if namefn else f"/out/part-{i:0{width}d}.csv"
+                  for i in range(len(parts_pd))]
+    if len(parts_pd) > 10 and not single:
+        out.probe("more_than_ten_part_files")
     if stale:
         out.probe("stale_target_files")
         junk = ("stale,content\n" * 40).encode()
-        for nm in ["/out/all.csv"] if single else \
-                [f"/out/part-p{i:03d}.csv" if namefn else f"/out/part-{i}.csv" for i in range(len(parts_pd))]:
+        for nm in ["/out/all.csv"] if single else part_names:
             simfs.put("simfs:/" + nm, junk)
     runs, digests = [], []
     problem = None
@@ -176,8 +187,7 @@ def run_one(tape, cfg):
                     problem = ("single_file_content",
                                f"file content {texts['/out/all.csv']!r} != pandas.to_csv {want!r}")
             else:
-                names = [f"/out/part-p{i:03d}.csv" if namefn else f"/out/part-{i}.csv"
-                         for i in range(len(parts_pd))]
+                names = part_names
                 if sorted(texts) != sorted(names):
                     problem = ("files_written", f"expected {names}, found {sorted(texts)}")
                 else:
@@ -215,6 +225,11 @@ def run_one(tape, cfg):
                         out.probe("zero_byte_file_among_inputs")
                         simfs.put("simfs://out/zz-empty.csv", b"")
                         rpaths.insert(1 + tape.draw(len(rpaths) - 1, "zpos"), "simfs://out/zz-empty.csv")
+                    elif not namefn and tape.chance(1, 2, "glob"):
+                        # read the directory back through the pattern it was written with: the files
+                        # come in name order, which has to be the partition order
+                        rpaths = "simfs://out/part-*.csv"
+                        out.probe("read_back_through_glob")
                 rerr = None
                 got = None
                 if rpaths is not None:
